@@ -63,6 +63,20 @@ def build_coq(clean=False, targets=None):
         return p.returncode == 0, (p.stdout + p.stderr)[-3000:]
 
 
+def repo_changed():
+    """True iff REPO's HEAD differs from harness/repo_ref.txt or pydcop/ has uncommitted edits."""
+    try:
+        ref = open(os.path.join(VERIF, "harness", "repo_ref.txt")).read().split()[0]
+    except Exception:
+        return False
+    try:
+        head = subprocess.run(["git", "-C", REPO, "rev-parse", "HEAD"], capture_output=True, text=True).stdout.strip()
+        dirty = subprocess.run(["git", "-C", REPO, "diff", "--quiet", "HEAD", "--", "pydcop"]).returncode != 0
+        return dirty or not head.startswith(ref[:12])
+    except Exception:
+        return False
+
+
 def dep_closure(mods):
     """PyDcop modules reachable from `mods` through `From PyDcop Require ...` lines."""
     import re
@@ -253,6 +267,15 @@ def pipeline(mod, pid, tier, seed, args, work, t0):
             log("obligations now undischarged: %s" % [u[0] for u in undischarged])
     else:
         n = args.n or (mod.N_QUICK if tier == "quick" else mod.N_THOROUGH)
+        # more search exactly when the code changed: if the /repo tree differs from the commit the
+        # evidence was produced on (harness/repo_ref.txt) or has uncommitted edits under pydcop/,
+        # the quick tier generates QUICK_BOOST times more cases (never more than the thorough
+        # count). The comparison itself never raises an alarm.
+        changed = repo_changed()
+        if tier == "quick" and not args.n and changed:
+            boost = float(os.environ.get("VERIF_QUICK_BOOST", getattr(mod, "QUICK_BOOST", 3)))
+            n = int(min(mod.N_THOROUGH, max(n, n * boost)))
+            notes.append("repo tree differs from reference commit: quick case count raised to %d" % n)
         corpus_p = os.path.join(VERIF, "harness", "corpus", pid + ".json")
         corpus = json.load(open(corpus_p)) if os.path.exists(corpus_p) else []
         cases = list(corpus) + list(mod.gen(rng, n, tier))
